@@ -334,6 +334,52 @@ fn main() {
                 });
                 sink.count("text entry points: every BMP character after each of 9 sequence prefixes", cps.len() as u64 * 9);
             }
+            // medium-length inputs in every kind of parser state (block-wise fast paths of 4/8/16/32 bytes): a sequence
+            // prefix, optionally a whitespace control, k = 0..=40 plain bytes, a multi-byte character, a tail; one-shot
+            // and cut after the prefix
+            {
+                let prefixes: [&str; 10] = ["", "\x1b", "\x1b[", "\x1b[1", "\x1b[1;", "\x1b]", "\x1b]0;t", "\x1bP", "\x1bP1q", "\x1b_"];
+                let cases: Vec<(usize, usize)> = (0..prefixes.len()).flat_map(|p| (0..=40usize).map(move |k| (p, k))).collect();
+                let n_medium = AtomicU64::new(0);
+                cases.par_iter().for_each(|&(pi, k)| {
+                    let pre = prefixes[pi];
+                    for ws in ["", "\n", "\t", "\r", "\x0c"] {
+                        for ch in ['\u{e9}', '\u{4e16}', '\u{1f600}', 'z'] {
+                            for (mid, tail) in [("", ""), ("", "b"), ("", "bbbbbbbbbbbbbbbbbbbbm\x07x"), ("\x18", "b"), ("\x1a", "bbbbbbbbbbbbbbbbbbbbm\x07x"), ("\x07", "bb")] {
+                                let input = format!("{pre}{ws}{}{mid}{ch}{tail}", "a".repeat(k));
+                                n_medium.fetch_add(1, Ordering::Relaxed);
+                                check_str_input(&sink, &input, false);
+                                check_bytes_input(&sink, input.as_bytes());
+                                match guard(|| {
+                                    let mut bad = None;
+                                    let mut st = StripStr::new();
+                                    for chunk in [pre, &input[pre.len()..]] {
+                                        for piece in st.strip_next(chunk) {
+                                            if std::str::from_utf8(piece.as_bytes()).is_err() || !inside(chunk.as_bytes(), piece.as_bytes()) {
+                                                bad = Some(format!("incremental piece {:02x?} invalid or outside the chunk", piece.as_bytes()));
+                                            }
+                                        }
+                                    }
+                                    let mut st = StripBytes::new();
+                                    for chunk in [pre.as_bytes(), &input.as_bytes()[pre.len()..]] {
+                                        for piece in st.strip_next(chunk) {
+                                            if !inside(chunk, piece) {
+                                                bad = Some("incremental byte piece outside the chunk".to_string());
+                                            }
+                                        }
+                                    }
+                                    bad
+                                }) {
+                                    Ok(None) => {}
+                                    Ok(Some(m)) => sink.report("anstream::adapter::StripStr/StripBytes (two chunks)", "invalid-piece", input.as_bytes(), m),
+                                    Err(p) => sink.report("anstream::adapter::StripStr/StripBytes (two chunks)", "panic", input.as_bytes(), p),
+                                }
+                            }
+                        }
+                    }
+                });
+                sink.count("text and byte entry points: medium-length inputs (10 prefixes x 5 whitespace controls x 0..=40 plain bytes x 4 characters x 6 tails)", n_medium.load(Ordering::Relaxed));
+            }
             // macro inputs reaching the limits
             let mut macros: Vec<Vec<u8>> = vec![];
             for k in [15usize, 16, 17, 40] {
